@@ -419,6 +419,10 @@ class CallMixin:
                 return AST_K
             if n == 'Any':
                 return DATA
+            if n == 'Element':
+                return ELEM
+            if n == 'ElemList':
+                return ELEMLIST
             if n in self.ctx.sorts.enum_sorts:
                 return ENUM(n)
             return REF(n)
